@@ -364,7 +364,9 @@ void mmd_export_image_html(DString * out, const char * source, token * text, lin
 				store_asset(scratch, link->url);
 			}
 
-			printf("<img src=\"%s\"", link->url);
+			print_const("<img src=\"");
+			mmd_print_string_html(out, link->url, false, false);
+			print_const("\"");
 		}
 	} else {
 		print_const("<img src=\"\"");
